@@ -43,7 +43,7 @@ REQUIRED = {'quick': {'evaluations': 8000, 'explicit_index_queries': 5000, 'mult
 
 MALFORMED = ['length', ' length', 'x%length', '%a.length', '%1x.length', '%.length', '%-.length', '%x1.edition',
              '0.length', '$length', '%one.n_subsets', '% .length', '%1,0.length']
-INDICES = [0, 1, 2, 3, 4, 5, 6, 9, 10, 12, 99, 255, 1000]
+INDICES = [0, 1, 2, 3, 4, 5, 6, 9, 10, 12, 99, 255, 1000, -1, -2]
 
 
 def anchors():
